@@ -2,6 +2,7 @@ package sqlsim
 
 import (
 	"fmt"
+	"sort"
 	"strings"
 
 	"verif/sim/kernel"
@@ -35,6 +36,12 @@ func c11Setup(s *Sess) {
 	s.MustExec("CREATE TABLE t1 (id INT PRIMARY KEY, a INT, b INT, KEY ka (a))")
 	s.MustExec("CREATE TABLE t2 (id INT PRIMARY KEY, x INT)")
 	s.MustExec("CREATE VIEW v1 AS SELECT t1.id, t1.a, t2.x FROM t1 JOIN t2 ON t1.b = t2.id")
+	// a sequence generator: the trigger's uncorrelated subquery reads a table
+	// that the same trigger changes for every row of a multi-row statement
+	s.MustExec("CREATE TABLE ctr (k INT PRIMARY KEY, v INT)")
+	s.MustExec("INSERT INTO ctr VALUES (1, 0)")
+	s.MustExec("CREATE TABLE sq (id INT PRIMARY KEY, seq INT)")
+	s.MustExec("CREATE TRIGGER sqt BEFORE INSERT ON sq FOR EACH ROW BEGIN UPDATE ctr SET v = v + 1 WHERE k = 1; SET NEW.seq = (SELECT v FROM ctr WHERE k = 1); END")
 }
 
 func checkC11(env *kernel.Env) {
@@ -125,10 +132,38 @@ func checkC11(env *kernel.Env) {
 	}
 	steps := T.Range(6, 36)
 	nextID := 100
+	ctr, sqID := 0, 0
 	for step := 0; step < steps && !env.Failed(); step++ {
 		s := sess[T.Draw(nsess)]
 		holder := anyTxn()
 		canWrite := holder == nil || holder == s
+		if holder == nil && T.Bool(1, 12) {
+			// rows of one statement must not see a value cached for an earlier row
+			n := T.Range(1, 4)
+			var vals, want []string
+			for i := 0; i < n; i++ {
+				sqID++
+				vals = append(vals, fmt.Sprintf("(%d)", sqID))
+				want = append(want, fmt.Sprintf("(%d,%d)", sqID, ctr+i+1))
+			}
+			q := "INSERT INTO sq (id) VALUES " + strings.Join(vals, ", ")
+			r := s.Exec(q)
+			env.Kind(fmt.Sprintf("sequence-insert:%d", n))
+			env.Logf("%s %s -> %s", s.Name, q, ErrClass(r.Err))
+			if r.Err != nil {
+				env.Fail("statement-succeeds", "sequence-insert-failed", "%s: %s failed: %v", s.Name, q, r.Err)
+				break
+			}
+			got := render(s.Exec(fmt.Sprintf("SELECT id, seq FROM sq WHERE id > %d ORDER BY id", sqID-n)))
+			sort.Strings(want) // render sorts the rows as strings
+			if got != strings.Join(want, " ") {
+				env.Fail("rows-see-current-data", "stale-subquery-inside-statement", "%s: %s with a trigger that increments ctr.v and reads it back through a subquery stored [%s]; each row must get the value current at that row: [%s]", s.Name, q, got, strings.Join(want, " "))
+				break
+			}
+			ctr += n
+			env.Probe("sequence-insert-checked")
+			continue
+		}
 		switch a := T.Pick(10, 6, 2, 2, 1, 1, 1); {
 		case a == 0 || !canWrite:
 			qi := T.Draw(len(pool))
